@@ -77,7 +77,10 @@ type streamRun struct {
 	stop                         chan struct{}
 	done                         chan struct{}
 	consumer                     string
-	pause                        atomic.Int64 // consumer pauses
+	vtWait                       func()        // inside a virtual-time bubble: blocks until every other goroutine is durably blocked
+	stallEvery                   int           // consumer "stall": before taking every stallEvery-th message ...
+	stallFor                     time.Duration // ... the application is away for this long (virtual time only)
+	pause                        atomic.Int64  // consumer pauses
 	quiesced                     bool
 	shutdownAfter                int // the application asks for shutdown after this many deliveries (0 = never)
 	shutdownSent                 bool
@@ -99,6 +102,9 @@ func startStream(conn *sched.Conn, consumer string, pBefore, pAfter int, shutdow
 	s := &streamRun{conn: conn, parser: &yieldParser{before: pBefore, after: pAfter}, stop: make(chan struct{}), done: make(chan struct{}), consumer: consumer}
 	if len(shutdownAfter) > 0 {
 		s.shutdownAfter = shutdownAfter[0]
+	}
+	if len(shutdownAfter) > 2 { // consumer "stall": every shutdownAfter[1]-th message is preceded by shutdownAfter[2] seconds away
+		s.stallEvery, s.stallFor = shutdownAfter[1], time.Duration(shutdownAfter[2])*time.Second
 	}
 	// the constructor runs in a goroutine of its own: should it never return (every goroutine parked, the logical clock
 	// still), that is a verdict of its own and the caller gets nil
@@ -158,6 +164,11 @@ func (s *streamRun) consume() {
 				}
 			}
 			switch s.consumer {
+			case "stall":
+				if s.stallEvery > 0 && n%s.stallEvery == 0 {
+					s.pause.Add(1)
+					time.Sleep(s.stallFor)
+				}
 			case "slow":
 				for i := 0; i < 20; i++ {
 					runtime.Gosched()
@@ -207,6 +218,24 @@ var _ = unsafe.Pointer(nil)
 // finish waits for quiescence, samples the pool, shuts the stream down through its public API, drains, and stops
 // the consumer. Returns false if quiescence was not reached (inconclusive).
 func (s *streamRun) finish() bool {
+	if s.vtWait != nil {
+		// virtual time: after this sleep every stall is over and every timer that was ever armed has fired
+		time.Sleep(1000000 * time.Hour)
+		s.vtWait()
+		s.quiesced = true
+		s.readPool()
+		if !s.conn.IsClosed() {
+			select {
+			case s.stream.Shutdown <- true:
+			default:
+			}
+		}
+		time.Sleep(24 * time.Hour)
+		s.vtWait()
+		close(s.stop)
+		<-s.done
+		return true
+	}
 	s.quiesced = sched.Quiescent(30 * time.Second)
 	if s.quiesced {
 		s.readPool()
